@@ -6,7 +6,7 @@ from hypothesis import strategies as st
 from reactivex import operators as ops
 
 from vlib.core import FAIL, OK, SKIP, Check, HarnessError
-from vlib.hoc import POLICIES, TSource, all_subs, draw_outer, exact_trace, inner_specs, simulate
+from vlib.hoc import POLICIES, TSource, all_subs, draw_outer, draw_second, exact_trace, inner_specs, second_tick, simulate, subs_cover
 from vlib.lab import Lab
 
 PROPERTY_ID = "C12"
@@ -23,7 +23,9 @@ RULE = (
     "ignored); from the logs: every arriving inner is subscribed at its arrival tick in arrival order, and an inner that "
     "was still running when its successor arrived is unsubscribed at the successor's arrival tick and before (global seq) "
     "the successor is subscribed. Queued same-instant ties (an inner event and an outer event at one tick) are accepted "
-    "under any of the consistent orders fifo / outer-first / inner-first. Non-trivial: >= 1 inner was cut short by a successor."
+    "under any of the consistent orders fifo / outer-first / inner-first. In about a third of the cases (hot sources "
+    "turned cold) the SAME built observable is subscribed a second time - after the first subscription terminated, or "
+    "overlapping it - and both probes are judged by the same oracle with their own subscribe tick. Non-trivial: >= 1 inner was cut short by a successor."
 )
 ASSUMPTIONS = [
     "inner sources are conforming; 'leaky' inners ignore disposal for emission (they log the unsubscribe) and bypass AutoDetachObserver",
@@ -59,7 +61,7 @@ def build(case, lab, inners):
     return outer.pipe(op)
 
 
-def _judge(case, op, p, inners):
+def _judge(case, op, p, subs, logs=True):
     exp = exact_trace(op)
     got = p.trace()
     if got != exp:
@@ -80,8 +82,9 @@ def _judge(case, op, p, inners):
         else:
             clause = "terminal"
         return ("trace:" + clause, f"expected {exp} got {got}")
+    if not logs:
+        return subs_cover(op, subs)
     tseq = p.terminal()[3] if p.terminal() else None
-    subs = all_subs(inners)
     before = [d for d in subs if tseq is None or d["sub_seq"] < tseq]
     gseq = [(d["src"], d["sub"]) for d in before]
     eseq = [(op.arrivals[j]["src"], op.arrivals[j]["arr"]) for j in op.started]
@@ -103,33 +106,65 @@ def _judge(case, op, p, inners):
 def _run(case):
     form = case["form"]
     t0 = case["t0"]
+    sec = case.get("second")
+    mode2 = t2 = None
+    if sec:
+        ref = simulate(case["outer"], case["inners"], _resolver(case), t0, "fifo", "switch")
+        mode2, t2 = second_tick(sec, t0, ref.term[0] if ref.term else None)
     lab = Lab()
     inners = [TSource(lab, spec, f"i{i}") for i, spec in enumerate(case["inners"])]
     o = build(case, lab, inners)
     p = lab.probe()
     lab.at(t0, lambda: p.subscribe(o))
+    p2 = None
+    s2 = [None]
+    if sec:
+        p2 = lab.probe("p2")
+
+        def sub2():
+            s2[0] = lab.next_seq()
+            p2.subscribe(o)
+
+        lab.at(t2, sub2)
     lab.run()
     if lab.inconclusive:
         return SKIP(lab.inconclusive)
     if lab.escaped is not None:
         raise lab.escaped
-    ok_g, msg = p.grammar_ok()
-    if not ok_g:
-        return FAIL(f"grammar|{form}", f"{msg} case={case}")
-    first_bad = None
+    for q in (p, p2):
+        if q is not None:
+            ok_g, msg = q.grammar_ok()
+            if not ok_g:
+                return FAIL(f"grammar|{form}", f"{msg} case={case}")
+    subs = all_subs(inners)
+    separable = True
+    if sec:
+        separable = mode2 == "after" and p.terminal() is not None and p.terminal()[3] < s2[0]
+    plan = [(p, t0, [d for d in subs if not sec or not separable or d["sub_seq"] < s2[0]], "" if not sec else ":1st-of-2-subscriptions")]
+    if sec:
+        plan.append((p2, t2, [d for d in subs if not separable or d["sub_seq"] > s2[0]], ":2nd-subscription"))
     chosen = None
-    for pol in POLICIES:
-        op = simulate(case["outer"], case["inners"], _resolver(case), t0, pol, "switch")
-        bad = _judge(case, op, p, inners)
-        if bad is None:
-            chosen = (pol, op)
-            break
-        if first_bad is None:
-            first_bad = bad
-    if chosen is None:
-        return FAIL(f"{first_bad[0]}|{form}", f"{first_bad[1]} case={case}")
+    for q, tq, qsubs, suffix in plan:
+        first_bad = None
+        got_ok = None
+        for pol in POLICIES:
+            op = simulate(case["outer"], case["inners"], _resolver(case), tq, pol, "switch")
+            bad = _judge(case, op, q, qsubs, logs=separable)
+            if bad is None:
+                got_ok = (pol, op)
+                break
+            if first_bad is None:
+                first_bad = bad
+        if got_ok is None:
+            return FAIL(f"{first_bad[0]}|{form}{suffix}", f"{first_bad[1]} (subscribed at {tq}) case={case}")
+        if chosen is None:
+            chosen = got_ok
     pol, op = chosen
     cls = [form, "policy:" + pol]
+    if sec:
+        cls.append("2nd-subscription:" + mode2 + ("" if separable or mode2 == "overlap" else "(first-still-running)"))
+        if p2.events:
+            cls.append("2nd-subscription:saw-events")
     started = [op.arrivals[j] for j in op.started]
     cuts = sum(1 for a in started if a["cut"] is not None)
     if cuts:
@@ -169,7 +204,7 @@ _KINDS = ("cold", "cold", "sync", "hot", "leaky", "cold")
 def _cases(draw, big=False):
     inn = draw(inner_specs(max_inners=5, max_len=6, kinds=_KINDS) if big else inner_specs(kinds=_KINDS))
     form = draw(st.sampled_from(FORMS))
-    return {"form": form, "inners": inn, "t0": draw(st.integers(0, 3)), "outer": draw_outer(draw, len(inn), max_len=7 if big else 5)}
+    return draw_second(draw, {"form": form, "inners": inn, "t0": draw(st.integers(0, 3)), "outer": draw_outer(draw, len(inn), max_len=7 if big else 5)})
 
 
 def checks(tier):
